@@ -199,7 +199,7 @@ impl<T: Socket + ?Sized> Worker<T> {
         let mut window = Window::new(self.windowsize, self.blk_size, file);
 
         loop {
-            let mut size;
+            let mut size = self.blk_size;
             let mut retry_cnt = 0;
 
             loop {
@@ -220,6 +220,11 @@ impl<T: Socket + ?Sized> Worker<T> {
                             if window.is_full() {
                                 break;
                             }
+                        } else {
+                            // Duplicate or out of sequence block: our acknowledgement
+                            // may have been lost, so write what we have and acknowledge
+                            // the last in-sequence block again.
+                            break;
                         }
                     }
                     Ok(Packet::Error { code, msg }) => {
